@@ -2,6 +2,7 @@
 From Coq Require Import List String Bool.
 Import ListNotations.
 From NV Require Import Types.SigDefs Gen.PrimopSig Gen.PrimopDyn Props.C01.
+From NV Require Import Types.Syntax Types.Sem Types.Decl Types.LogRel Types.Safety Types.ModelSig.
 
 Check (C01_sig_sound_generated :
   forall r, In r sig_table -> ~ In r.(s_name) exempt_ops ->
@@ -10,3 +11,10 @@ Check (C01_sig_sound_generated :
     exists d, lookup_dyn dyn_table r.(s_name) ks = Some d
               /\ (forall c, In c d.(d_errs) -> bad_class r.(s_name) c = false)
               /\ (forall k, In k d.(d_kinds) -> inhabits k r.(s_res) = true)).
+
+Check (C01_type_safety : forall Sg, sig_sound Sg ->
+  forall n e T, has_type Sg [] e T -> safe_outcome (run n e)).
+Check (C01_model_sig_sound : sig_sound model_sig).
+Check (C01_type_safety_model : forall n e T, has_type model_sig [] e T -> safe_outcome (run n e)).
+Check (C01_typed_result_in_type : forall Sg, sig_sound Sg ->
+  forall n e T v, has_type Sg [] e T -> eval n MTyped [] e = Ok v -> V T [] v).
